@@ -60,6 +60,10 @@ CHECKS = {
    technique='the real hashing code executed with hashlib replaced by a recorder; collision freedom of the recorded pre-image structure decided by z3 sequence theory under an ideal SHA-1 (digest equal => pre-image equal), leaves constrained to the language of their encoder',
    text='For 41 value skeletons (scalars, None/Ellipsis/types, tuples/lists/sets/dicts incl. empty and nested, namedtuple, dataclass, Immutable subclasses incl. same-named classes, frozendict, frozenmultiset) and all pairs of them (all same-skeleton pairs + 32 type-confusion pairs + 120 sampled in quick; all 861 in thorough) z3 shows that two different values cannot have equal top-level hash pre-images unless SHA-1 itself collides; order independence of dict/set/multiset is inside the same queries.',
    note='Auxiliary (concrete, labelled): keyword/positional construction, int32/int64 arraydata, numpy scalars, commutative operands, pickle round trip, other process and PYTHONHASHSEED.  Declined: identity of interned objects over allocation/GC histories; SHA-1 itself.  Leaf texts are bounded to 8 characters; repr(float) is treated as an injective text.  Seekable streams (pos ++ content ambiguity) are not among the immutable nutils values the property names.'),
+ 'C18': dict(level='other', design='4/C18',
+   technique='symbolic execution of cache.function and Recursion.__iter__ on an in-memory file model whose earlier-run state is symbolic (number of complete items, state of the next file, exception kind, sequence length) with a symbolic linear recurrence as the memoised computation; per-path SMT validity; real-file replay',
+   text='For every history within the bounds - n complete items (symbolic), then an empty / truncated / garbage file or a stop marker, any of the caught load exceptions, sequences of symbolic length, recursion length 1-2 (3 thorough) - the cached iteration yields exactly the uncached items, replays the log once per entry read, computes each missing item exactly once from the correct history and leaves complete files; cache.function returns the uncached value for every file state (incl. old formats), executes the function only when the entry is not complete, never stores a failed call.',
+   note='Assumption checked by enumeration in the same run (labelled): every strict prefix of a real pickle stream fails to load with EOFError/UnpicklingError (1886 cut points), and real cache files cut at every byte are recomputed correctly (397 cut points).  Declined: concurrent callers (real flock between OS processes, same reason as C16) and crashes while overwriting a longer stale entry.'),
 }
 
 NOT_APPLICABLE = {
